@@ -95,7 +95,9 @@ def plans(draw, sers=SERS, algs=None, encs=None, max_recipients=4, allow_zip=Tru
     headerless = allow_headerless and n > 1 and place != "recipient" and draw(st.booleans())
     recipients = []
     for i, alg in enumerate(alglist):
-        key = draw(key_for(alg, enc, curve))
+        # without a sender key every agreement recipient may live on a curve of its own (EC and X25519 / X448 recipients in one message)
+        rcurve = curve if (sender is not None or i == 0 or alg not in rjwe.ECDH_ES) else draw(st.sampled_from(curves or (EC_CURVES + X_CURVES)))
+        key = draw(key_for(alg, enc, rcurve))
         hdr = {}
         if place == "recipient":
             hdr["alg"] = alg
